@@ -59,6 +59,32 @@ def r14_1(prog, rep):
         f"istexttype tests {sorted(got)} = {{str}} ∪ what serdes.decode converts",
         f"carrier tables disagree: istexttype tests {sorted(got)}, serdes.decode converts {sorted(dc)}: a carrier is either loaded without being decodable or decodable without being loaded",
     )  # fmt: skip
+    # decode() decides by the class of its argument alone: an exit taken on the *content* (empty, falsy, a first byte) gives the
+    # same text a different treatment in a different carrier
+    subj = ("param", f.params[0])
+
+    def class_only(g):
+        def strip(tm):
+            if T.is_call_to(tm, "builtins.isinstance", "builtins.issubclass") and tm[2] and T.contains(tm[2][0], lambda y: y == subj):
+                return ("const", "<class-test>")
+            if T.is_call_to(tm, "builtins.type") and tm[2] == (subj,):
+                return ("const", "<class>")
+            if tm[0] == "attr" and tm[2] == "__class__" and tm[1] == subj:
+                return ("const", "<class>")
+            return None
+
+        return not T.contains(T.rewrite(g, strip), lambda y: y == subj)
+
+    by_content = []
+    for p in P.paths_of(prog, f):
+        env_subj = {subj}
+        for g, _pol in p.guards():
+            # the memoryview alias (`val.tobytes() if isinstance(val, memoryview) else val`) is still the argument
+            g2 = T.rewrite(g, lambda tm: subj if (tm[0] == "ifexp" and subj in tm[1:]) else None)
+            if not class_only(g2):
+                by_content.append(T.show(g)[:60])
+        del env_subj
+    rep.check(not by_content, "R14.1", f"{C.SERDES}.decode", f.loc, "decode branches on the class of its argument only", f"decode branches on the content of its argument ({by_content[0] if by_content else ''}): an empty bytes / bytearray / memoryview is returned undecoded while '' is text — unmarshal(str, b'') == \"b''\", Literal[''] rejects b''", detail="class-only")
     rep.check(set(TEXT) - {"builtins.str"} <= dc, "R14.1", f"{C.SERDES}.decode", f.loc, "decode converts bytes, bytearray and memoryview", f"decode does not convert {sorted(set(TEXT) - {'builtins.str'} - dc)}", detail="carriers")
 
 
